@@ -36,6 +36,14 @@ def gen_literals(quick, seed):
                 add(kind, B(pre + e + post), "escape form in context")
     for e1, e2 in itertools.product(ESCAPES[:12] + ESCAPES[14:20], repeat=2):
         add("dq", B(e1 + e2), "two escapes")
+    # characters that are valid text but look special to a decoder: U+FFFD (what decoders return for garbage), the byte-order mark,
+    # a line separator, a 4-byte rune, the last code point - in every kind of literal
+    for ch in ["\ufffd", "\ufeff", "\u2028", "\U0001f600", "\U0010ffff", "\u0080", "\u07ff", "\u0800", "\uffff", "\ud7ff", "\ue000"]:
+        for pre, post in (("", ""), ("a", "b"), ("\u00e9", "\n")):
+            for kind in ("dq", "sq", "tdq", "tsq", "bq"):
+                if post == "\n" and kind in ("dq", "sq", "bq"):
+                    continue
+                add(kind, B(pre + ch + post), "special but valid characters in every kind of literal")
     raw_alpha = [B('"'), B("'"), B("\\"), [10], B("a"), B("n"), B("`"), B("é"), [0]]
     for k in range(0, 4 if quick else 5):
         for combo in itertools.product(raw_alpha, repeat=k):
